@@ -53,10 +53,10 @@ def gen_layouts(tier):
     styles = '{"nop", "sta3", "inl", "mix"}' if tier == "thorough" else '{"nop", "sta3", "inl"}'
     open(cfg, "w").write('CONSTANTS\n Dists = %s\n Styles = %s\n Tier = "%s"\nINIT Init\nNEXT Next\nINVARIANT Emit\nCHECK_DEADLOCK FALSE\n' % (dists, styles, tier))
     # sets in cfg files must be written with TLA+ syntax supported by the cfg parser: use a model module instead
-    mc = os.path.join(common.SPEC, "MCGenLayout.tla")
+    mc = os.path.join(d, "MCGenLayout.tla")
     open(mc, "w").write("---- MODULE MCGenLayout ----\nEXTENDS GenLayout\nMCDists == %s\nMCStyles == %s\n====\n" % (dists, styles))
     open(cfg, "w").write('CONSTANTS\n Dists <- MCDists\n Styles <- MCStyles\n Tier = "%s"\nINIT Init\nNEXT Next\nINVARIANT Emit\nCHECK_DEADLOCK FALSE\n' % tier)
-    res = common.run_tlc("MCGenLayout", cfg=cfg, name="gen_c03", tags={"CASE"}, workers=4, heap="4g")
+    res = common.run_tlc("MCGenLayout", cfg=cfg, name="gen_c03", tags={"CASE"}, workers=4, heap="4g", module_dir=d)
     common.require_ok(res, "GenLayout")
     lays = [o for (_, o) in res.lines]
     lays.sort(key=lambda o: json.dumps(o, sort_keys=True))
